@@ -55,7 +55,7 @@ harness! {
         // woken every C/2 advances.
         // the cursor is instantiated (symbolic cursors make the symbolic ring index explode in CBMC's
         // post-processing: > 400 s, out of memory); the parked position i stays symbolic
-        let next: usize = if kani::any() { 0 } else { 5 };
+        let next: usize = 1;
         let mut st = state(next, Vec::new(), [&[], &[]], true);
         let i: usize = kani::any();
         kani::assume(i > next && i <= next + C);
